@@ -435,7 +435,7 @@ def build_cases(tier, seed):
         for form in G.FORMS:
             cases.append(("literal", form, st, None))
     r = random.Random(seed * 1000003 + 24)
-    nrand = 1500 if not full else 40000
+    nrand = 800 if not full else 40000
     for i in range(nrand):
         st = G.random_structure(r, 5 if i % 4 else 8)
         for form in G.FORMS:
@@ -484,10 +484,10 @@ def wrap(form, body):
 
 def _conv_work(rng_):
     """compile_fcomponent on FComponent([x], conversion=chr(cp)) for every code point of the range"""
-    lo, hi = rng_
+    lo, hi, stride = rng_
     comp = sx.new_compiler("hv_c24_mod")
     bad, n = None, 0
-    for cp in range(lo, hi):
+    for cp in range(lo, hi, stride):
         ch = chr(cp)
         if ch in "sra":
             continue
@@ -505,6 +505,7 @@ def _conv_work(rng_):
 
 
 def malformed_part(chk, conv_results):
+    # (conv_results: all code points in the thorough tier; the BMP and a 1-in-17 sample of the other planes in the quick tier)
     acc = Acc()
     ctx_field = {"top-level": "%s", "amid text and fields": "ab%sc{y}", "nested in a format spec": "{y :>%s}",
                  "nested two levels": "{y :{w :%s}}"}
@@ -557,7 +558,7 @@ def malformed_part(chk, conv_results):
     bad = next((r[1] for r in conv_results if r[1]), None)
     chk.evaluations += nchars
     chk.ob("malformed/conversion/compile_fcomponent rejects every one-character conversion other than s r a", bad is None, "rtc",
-           "exhaustive_finite", detail=f"{nchars} code points" if bad is None else f"U+{bad[0]:04X}: {bad[1]}",
+           "exhaustive_finite" if chk.tier == "thorough" else "bounded", detail=f"{nchars} code points" if bad is None else f"U+{bad[0]:04X}: {bad[1]}",
            replay={"confirmed": True, "input": f"FComponent([x], conversion=chr({bad[0]}))", "observed": bad[1]} if bad else None)
     for conv in ("sr", "", "rr", 0, 114, "ſ", "ｒ", "S", "R", "A", True, b"r"):
         try:
@@ -601,7 +602,7 @@ def malformed_part(chk, conv_results):
     chk.extra["malformed_sources"] = n
     chk.bounds["malformed fields"] = (f"{len(G.malformed_fields())} malformed field texts x 4 contexts x 3 forms, "
                                       f"{len(G.malformed_unclosed())} unclosed fields and {len(G.malformed_single_close())} single-brace texts "
-                                      f"x 2 contexts x 3 forms; conversion characters: all {nchars} code points at model level")
+                                      f"x 2 contexts x 3 forms; conversion characters at model level: {nchars} code points ({'all' if chk.tier == 'thorough' else 'the BMP and every 17th beyond'})")
     return acc
 
 
@@ -794,15 +795,19 @@ def run(chk):
     global _CASES
     _CASES = build_cases(chk.tier, chk.seed)
     n = len(_CASES)
-    step = max(50, n // (chk.jobs * 6))
+    step = max(50, n // (min(chk.jobs, 16) * 4))
     tasks = [(i, min(n, i + step)) for i in range(0, n, step)]
     top = sys.maxunicode + 1
     cstep = top // 32 + 1
-    ctasks = [(i, min(top, i + cstep)) for i in range(0, top, cstep)]
+    # quick: the whole Basic Multilingual Plane and every 17th code point beyond it; thorough: every code point
+    full_conv = chk.tier == "thorough"
+    ctasks = [(i, min(top, i + cstep), 1) for i in range(0, top, cstep)] if full_conv else \
+             [(i, i + 0x2000, 1) for i in range(0, 0x10000, 0x2000)] + [(i, min(top, i + 0x20000), 17) for i in range(0x10000, top, 0x20000)]
+    procs = min(chk.jobs, 16) if chk.tier == "thorough" else min(chk.jobs, 8)       # page faults after fork are expensive
     if chk.jobs > 1:
         gc.collect()
         gc.freeze()
-        with mp.get_context("fork").Pool(min(chk.jobs, 16)) as pool:
+        with mp.get_context("fork").Pool(procs) as pool:
             r1 = pool.map_async(_work, tasks, chunksize=1)
             r2 = pool.map_async(_conv_work, ctasks, chunksize=1)
             results, conv_results = r1.get(), r2.get()
